@@ -10,6 +10,8 @@ import (
 	"fmt"
 	"os"
 
+	"github.com/shutter-network/rolling-shutter/rolling-shutter/app"
+
 	"verifharness/smchain"
 	"verifharness/vlib"
 )
@@ -51,6 +53,7 @@ func main() {
 		Assumptions: []string{
 			"Go randomises map iteration per range statement, so in-process replicas explore different iteration orders; an order-dependent binary decision escapes R replicas with probability 2^-(R-1) per occurrence",
 			"Tendermint itself (block proposal, mempool gossip) is replaced by the harness choosing block contents",
+			"one replica per history persists its state at every commit, the others never: the persistence schedule is outside the block sequence",
 		},
 		Prepare: func(env *vlib.Env) (int, error) {
 			nWalk = coprimeUp(env.Scale(400, 6000))
@@ -106,6 +109,17 @@ func runWalk(env *vlib.Env, h int, rep *vlib.Reporter, nrep int, primary bool) {
 	reps := make([]*smchain.Replica, nrep)
 	for i := range reps {
 		reps[i] = smchain.NewReplica(u, g)
+	}
+	if nrep >= 2 {
+		// replicas differ in everything that is outside the block sequence: replica 1 persists its
+		// state at every commit (wall-clock driven in production), the others never do
+		app.PersistMinDuration = 0
+		dir, err := os.MkdirTemp(env.Scratch, "c09p")
+		if err == nil {
+			defer os.RemoveAll(dir)
+			reps[1].App.Gobpath = dir + "/state.gob"
+			rep.Obs("replicas_with_persistence", 1)
+		}
 	}
 	hash := sha256.New()
 	okTx, events := 0, 0
